@@ -220,6 +220,49 @@ func runPost(c *Case) []string {
 				return "DEADLOCK"
 			}
 			return fmt.Sprintf("race rounds=%d lost=0 pending=%d posted=%d", rounds, d.ioc.Pending(), d.ioc.Posted())
+		case "regrace":
+			// regrace <goroutines> <handlers each>: goroutines post as fast as they can while the loop goroutine keeps starting
+			// reads on a regular file at the dispatch limit - registrations the kernel refuses (EPERM), whose accounting is
+			// rolled back on the counter the posts increment
+			ng, m := atoi(a[0]), atoi(a[1])
+			total := ng * m
+			var ran int64
+			var wg sync.WaitGroup
+			for g := 0; g < ng; g++ {
+				wg.Add(1)
+				go func() {
+					defer wg.Done()
+					for i := 0; i < m; i++ {
+						_ = d.ioc.Post(func() { atomic.AddInt64(&ran, 1) })
+					}
+				}()
+			}
+			finished := d.onLoop(func() {
+				f, err := sonic.Open(d.ioc, "/proc/self/status", 0, 0)
+				if err != nil {
+					panic(err)
+				}
+				defer f.Close()
+				buf := make([]byte, 8)
+				deadline := time.Now().Add(2500 * time.Millisecond)
+				for time.Now().Before(deadline) {
+					if atomic.LoadInt64(&ran) >= int64(total) && d.ioc.Posted() == 0 {
+						break
+					}
+					for k := 0; k < 30; k++ {
+						d.ioc.Dispatched = sonic.MaxCallbackDispatch
+						f.AsyncRead(buf, func(error, int) {})
+						d.ioc.Dispatched = 0
+					}
+					_, _ = d.ioc.PollOne()
+				}
+			})
+			if !finished {
+				d.dead = true
+				return "DEADLOCK"
+			}
+			wg.Wait()
+			return fmt.Sprintf("regrace ran=%d pending=%d posted=%d", atomic.LoadInt64(&ran), d.ioc.Pending(), d.ioc.Posted())
 		case "stress":
 			// stress <goroutines> <handlers each> <nested per handler> <seed>: posters run concurrently with the loop,
 			// which also arms and disarms a timer (its own registrations touch the same counter)
